@@ -204,8 +204,11 @@ public:
     template<typename T>
     T resume(suspend_point<T> &spt) {
         while (!spt.empty()) {
-            std::coroutine_handle<> h = spt.pop();
-            enqueue([h]{coro_queue::resume(h);});
+            //the enqueued function owns the coroutine through a suspend_point. When
+            //the thread pool is stopped, the function is destroyed without being called
+            //and the coroutine is resumed by the destructor of the suspend_point (in
+            //the thread which destroys it) - it must not be forgotten
+            enqueue([sp = suspend_point<void>(spt.pop())]() mutable {sp.clear();});
         }
         if constexpr(!std::is_void_v<T>) {
             return spt;
@@ -288,7 +291,13 @@ public:
     template<typename T>
     future<T> run(async<T> &fn) {
         return [&](auto promise) {
-            resume(fn.start(promise));
+            //the enqueued function owns both the coroutine and the promise and starts
+            //the coroutine in the worker thread. When the thread pool is stopped, the function
+            //is destroyed without being called: the coroutine is destroyed unstarted and
+            //the future is resolved as broken promise (it must not stay pending forever)
+            enqueue([fn = std::move(fn), promise = std::move(promise)]() mutable {
+                fn.start(promise);
+            });
         };
     }
 
